@@ -506,11 +506,8 @@ def check_panel(case, res):
         if hit is None and any(s != bvis for s in tv):
             hit = ("panel/border-style", "top line %r styles %r, expected %r" % (tt, tv, bvis))
     else:
-        hit = None
-        for top in tops:
-            hit = compare(lines, [top] + body, "panel")
-            if hit is None:
-                break
+        top = ([t for t in tops if t[0] == lines[0][0]] or tops)[0]   # centred title: either rounding
+        hit = compare(lines, [top] + body, "panel")
     if hit:
         res.violate(hit[0], case, hit[1])
 
@@ -548,11 +545,10 @@ def check_padding(case, res):
             return
         nat = content_width(kind, child, W)
         want = min(nat + pl + pr, W)
-        if True:
-            if w != want:
-                res.violate("padding/fit-width", case, "fitting padding is %d cells wide; content %d + padding %d, "
-                            "available %d" % (w, nat, pl + pr, W))
-                return
+        if w != want:
+            res.violate("padding/fit-width", case, "fitting padding is %d cells wide; content %d + padding %d, "
+                        "available %d" % (w, nat, pl + pr, W))
+            return
     inner = w - pl - pr
     if inner < cmin(child):
         res.sig(tuple(sig + ["below-min"]), nontrivial=False)
@@ -1027,15 +1023,18 @@ def widths_for(smin):
 
 def gen_panel(tier):
     vectors = panel_vectors(tier)
-    for child in children_for(tier):
-        for r, o in vectors:
+    base_children = children_for("quick")
+    quick_vectors = vectors if tier == "quick" else panel_vectors("quick")
+    for ci, child in enumerate(children_for(tier)):
+        # thorough: the deeper nestings get the <=2-deviation vectors, the base children the product
+        for r, o in (vectors if ci < len(base_children) else quick_vectors):
             o = dict(o)
             rel = o["width"] == "rel"
             o["width"] = None
             smin = cmin(["panel", child, o])
             if rel:
                 o["width"] = smin + 3
-            kinds = KINDS if (tier == "thorough" or r <= 1) else KINDS[:1]
+            kinds = KINDS if ((tier == "thorough" and ci < len(base_children)) or r <= 1) else KINDS[:1]
             for kind in kinds:
                 for W in widths_for(smin):
                     yield {"fam": "panel", "con": kind, "W": W, "desc": ["panel", child, o]}
@@ -1150,7 +1149,7 @@ def gen_columns(tier):
             labels = ls[:k]
             mx = max(max(sw(p) for p in s.split("\n")) for s in labels)
             for equal, expand, cf, r2l in itertools.product((False, True), repeat=4):
-                for r, o2 in deviations(COLUMN_AXES, 1 if tier == "quick" else 3):
+                for r, o2 in deviations(COLUMN_AXES, 2 if tier == "quick" else 3):
                     o = _cdev(equal=equal, expand=expand, column_first=cf, right_to_left=r2l, align=o2["align"],
                               padding=o2["padding"],
                               width={None: None, "max": mx, "max+2": mx + 2}[o2["width"]])
@@ -1204,7 +1203,7 @@ GENS = {"panel": gen_panel, "padding": gen_padding, "align": gen_align, "constra
         "styled": gen_styled, "rule": gen_rule, "bar": gen_bar, "pbar": gen_pbar, "columns": gen_columns,
         "tree": gen_tree}
 SHARDS = {"quick": {"panel": 24, "padding": 4, "align": 6, "constrain": 2, "styled": 2, "rule": 2, "bar": 2,
-                    "pbar": 3, "columns": 12, "tree": 8},
+                    "pbar": 3, "columns": 32, "tree": 8},
           "thorough": {"panel": 96, "padding": 8, "align": 12, "constrain": 4, "styled": 3, "rule": 3, "bar": 3,
                        "pbar": 4, "columns": 40, "tree": 12}}
 
@@ -1252,9 +1251,9 @@ def describe(tier, seed, res):
                 "rendered alone (or, for rules/bars/columns/trees, when the clause it exercises was applicable)."
                 % ("" if q else " + every frame kind with each single option deviation around 3 leaves + 4 deeper nestings",
                    "all vectors with <=2 deviations (consoles other than utf-8 only for <=1 deviation)" if q
-                   else "full product of title x expand x width x padding with <=1 deviation of box/style/border_style/safe_box",
+                   else "full product of title x expand x width x padding with <=1 deviation of box/style/border_style/safe_box (deeper nestings: <=2 deviations)",
                    4 if q else 7, 4 if q else 8,
-                   "<=1 deviation" if q else "the full product"),
+                   "<=2 deviations (consoles other than utf-8 only for 0)" if q else "the full product"),
         "assumptions": [
             "the child rendered alone by the real code at the inner width is the reference for 'the child's own lines' "
             "(children are judged as frames of their own in other cases; width budget of children is C01)",
